@@ -37,15 +37,19 @@ func init() {
 
 const actorP = -1 // the persister (the InsertLogs gate)
 
+// engWatchdogs counts the runs in which the scheduler's prediction of who arrives next was wrong (an arrival it waited
+// for never came).  Each costs a timeout; after a few of them the remaining runs of this process are skipped.
+var engWatchdogs int
+
 // ------------------------------------------------------------------ store: durable log + folds
 
 type engStore struct {
-	mu     sync.Mutex
-	logs   []*ledger.ChainedLog // durable, in insertion order, across commander generations
-	ameta  map[string]metadata.Metadata
-	gate   func(logs []*ledger.ChainedLog) error // scheduler gate; nil = pass
-	reads  int
-	note   func(ctx context.Context, e J) // records a store read in the trace of the current schedule
+	mu    sync.Mutex
+	logs  []*ledger.ChainedLog // durable, in insertion order, across commander generations
+	ameta map[string]metadata.Metadata
+	gate  func(logs []*ledger.ChainedLog) error // scheduler gate; nil = pass
+	reads int
+	note  func(ctx context.Context, e J) // records a store read in the trace of the current schedule
 }
 
 func (st *engStore) rec(ctx context.Context, e J) {
@@ -233,16 +237,18 @@ type engLockReq struct {
 }
 
 type engSched struct {
-	mu       sync.Mutex
-	rmu      sync.RWMutex // guards the resume map (read by request goroutines, written by the scheduler)
-	arrive   chan engArrival
-	resume   map[int]chan error
-	parked   map[int]string
-	expect   int // arrivals still to come before the system is quiet
-	trace    []any
-	events   []J
-	gen      int // commander generation (restarts)
-	deadGen  map[int]bool
+	mu         sync.Mutex
+	rmu        sync.RWMutex // guards the resume map (read by request goroutines, written by the scheduler)
+	arrive     chan engArrival
+	resume     map[int]chan error
+	parked     map[int]string
+	expect     int // arrivals of requests still to come before the system is quiet
+	expectGate int // batches still to reach the InsertLogs gate (may be negative for a moment: the batch can arrive before its producer parks)
+	appended   map[int]bool
+	trace      []any
+	events     []J
+	gen        int // commander generation (restarts)
+	deadGen    map[int]bool
 
 	// scheduler-native account locks
 	holders []engLockReq
@@ -519,13 +525,15 @@ func (r engReq) script() ledger.RunScript {
 }
 
 type engPlan struct {
-	Seed  uint64 `json:"seed"`
-	Crash int    `json:"crash"` // crash before scheduling step k (-1 = never)
-	Fail  int    `json:"fail"`  // the k-th gate release fails (-1 = never)
-	Plan   []int `json:"plan"`   // explicit choices (then seeded random, or always the first when First is set)
-	Coarse bool  `json:"coarse"` // only switch at visible steps
-	First  bool  `json:"first"`  // beyond the explicit prefix take the first enabled actor (used by the exhaustive search)
-	DFS    int   `json:"dfs"`    // > 0: enumerate every schedule (depth-first over the choices), at most this many
+	Seed            uint64 `json:"seed"`
+	Crash           int    `json:"crash"`             // crash before scheduling step k (-1 = never)
+	Fail            int    `json:"fail"`              // the k-th gate release fails (-1 = never)
+	Plan            []int  `json:"plan"`              // explicit choices (then seeded random, or always the first when First is set)
+	Coarse          bool   `json:"coarse"`            // only switch at visible steps
+	CrashAfterPhase int    `json:"crash_after_phase"` // stop and re-initialise once this phase is over (-1 / absent+flag = never)
+	HasCrashAfter   bool   `json:"has_crash_after"`
+	First           bool   `json:"first"` // beyond the explicit prefix take the first enabled actor (used by the exhaustive search)
+	DFS             int    `json:"dfs"`   // > 0: enumerate every schedule (depth-first over the choices), at most this many
 }
 
 var engVisible = map[string]bool{"start": true, "ik-lookup": true, "ref-lookup": true, "lock": true, "read-balances": true, "alloc-txid": true,
@@ -552,7 +560,7 @@ func runEngineSchedule(reqs []engReq, funding [][]string, ameta [][]string, plan
 	nFunding := len(st.logs)
 	initialLast := prev
 
-	s := &engSched{arrive: make(chan engArrival, 256), resume: map[int]chan error{}, parked: map[int]string{}, waiting: map[int]bool{},
+	s := &engSched{arrive: make(chan engArrival, 256), resume: map[int]chan error{}, parked: map[int]string{}, waiting: map[int]bool{}, appended: map[int]bool{},
 		lastPoint: map[int]string{}, dry: map[int]bool{}, actorGen: map[int]int{}, deadGen: map[int]bool{}}
 	s.setResumeCh(actorP)
 	r := &rng{s: plan.Seed*0x9e3779b97f4a7c15 + 7}
@@ -662,7 +670,7 @@ func runEngineSchedule(reqs []engReq, funding [][]string, ameta [][]string, plan
 
 	watchdog := false
 	waitQuiet := func() {
-		for s.expect > 0 {
+		for s.expect > 0 || s.expectGate != 0 {
 			select {
 			case e := <-s.arrive:
 				s.mu.Lock()
@@ -670,7 +678,17 @@ func runEngineSchedule(reqs []engReq, funding [][]string, ameta [][]string, plan
 				case 0:
 					s.parked[e.actor] = e.point
 					s.expect--
-					if e.point == "wait" && (s.lastPoint[e.actor] == "commit" || s.lastPoint[e.actor] == "handoff") && !s.dry[e.actor] {
+					if e.point == "wait" && !s.dry[e.actor] && !s.appended[e.actor] {
+						// a real write only reaches the wait for persistence through AppendLog: it has handed exactly one log to the
+						// batcher during this turn (whatever the yield points between the commit and here are called)
+						s.appended[e.actor] = true
+						s.appendOrder = append(s.appendOrder, e.actor)
+						if !s.persBusy {
+							s.persBusy = true
+							s.expectGate++
+						} else {
+							s.pending++
+						}
 						// the actor has just committed: exactly one actor runs at a time, so the commander's last log is its log
 						if ll := cmd.VerifLastLog(); ll != nil {
 							lj := logJ(s.lastCommit, ll)
@@ -695,18 +713,44 @@ func runEngineSchedule(reqs []engReq, funding [][]string, ameta [][]string, plan
 				case 2:
 					s.parked[actorP] = "gate"
 					s.gateBatch = len(e.logs)
-					s.expect--
+					s.expectGate--
 				case 3: // blocked on the lock queue: not runnable until granted
 					s.expect--
 				}
 				s.mu.Unlock()
-			case <-time.After(8 * time.Second):
+			case <-time.After(4 * time.Second):
 				watchdog = true
+				engWatchdogs++
 				return
 			}
 		}
 	}
 
+	doCrash := func() {
+		s.mu.Lock()
+		for a := range s.parked {
+			delete(s.parked, a)
+		}
+		s.trace = append(s.trace, J{"crash": step})
+		for i := range reqs {
+			if s.actorGen[i] == s.gen && !finished[i] && s.resumeCh(i) != nil {
+				crashed = append(crashed, i)
+			}
+		}
+		s.gen++
+		s.holders, s.queue = nil, nil
+		s.persBusy, s.pending, s.appendOrder, s.persisted, s.expectGate = false, 0, nil, 0, 0
+		s.waiting = map[int]bool{}
+		s.setResumeCh(actorP)
+		st.mu.Lock()
+		s.lastCommit = nil
+		if len(st.logs) > 0 {
+			s.lastCommit = st.logs[len(st.logs)-1]
+		}
+		st.mu.Unlock()
+		s.mu.Unlock()
+		newCommander()
+	}
 	phases := 0
 	for _, rq := range reqs {
 		if rq.Phase+1 > phases {
@@ -727,29 +771,7 @@ func runEngineSchedule(reqs []engReq, funding [][]string, ameta [][]string, plan
 			}
 			if plan.Crash == step { // process death at this point; restart from the store
 				plan.Crash = -2
-				s.mu.Lock()
-				for a := range s.parked {
-					delete(s.parked, a)
-				}
-				s.trace = append(s.trace, J{"crash": step})
-				for i := range reqs {
-					if s.actorGen[i] == s.gen && !finished[i] && s.resumeCh(i) != nil {
-						crashed = append(crashed, i)
-					}
-				}
-				s.gen++
-				s.holders, s.queue = nil, nil
-				s.persBusy, s.pending, s.appendOrder, s.persisted = false, 0, nil, 0
-				s.waiting = map[int]bool{}
-				s.setResumeCh(actorP)
-				st.mu.Lock()
-				s.lastCommit = nil
-				if len(st.logs) > 0 {
-					s.lastCommit = st.logs[len(st.logs)-1]
-				}
-				st.mu.Unlock()
-				s.mu.Unlock()
-				newCommander()
+				doCrash()
 				break // the phase is over: its requests never answer
 			}
 			var enabled []int
@@ -817,7 +839,7 @@ func runEngineSchedule(reqs []engReq, funding [][]string, ameta [][]string, plan
 					s.persisted += n
 					if s.pending > 0 {
 						s.pending = 0
-						s.expect++ // the next batch reaches the gate
+						s.expectGate++ // the next batch reaches the gate
 					} else {
 						s.persBusy = false
 					}
@@ -850,22 +872,16 @@ func runEngineSchedule(reqs []engReq, funding [][]string, ameta [][]string, plan
 					}
 				default:
 					s.expect++
-					if (pt == "handoff" || pt == "commit") && !s.dry[a] {
-						// the actor is about to call Batcher.Append
-						s.appendOrder = append(s.appendOrder, a)
-						if !s.persBusy {
-							s.persBusy = true
-							s.expect++
-						} else {
-							s.pending++
-						}
-					}
 				}
 				s.lastPoint[a] = pt
 				s.mu.Unlock()
 				s.resumeCh(a) <- nil
 			}
 			step++
+		}
+		if plan.HasCrashAfter && plan.CrashAfterPhase == ph && !watchdog {
+			waitQuiet()
+			doCrash()
 		}
 	}
 	waitQuiet()
@@ -912,6 +928,10 @@ func execEngine(in J) J {
 	runs := []any{}
 	plansOut := []any{}
 	one := func(p engPlan) J {
+		if engWatchdogs >= 3 { // the protocol observed no longer matches what the scheduler expects: stop burning timeouts
+			return J{"watchdog": true, "skipped": true, "trace": []any{}, "durable": []any{}, "responses": []any{}, "events": []any{}, "crashed": []any{},
+				"n_funding": 0, "choices": []int{}, "counts": []int{}, "steps": 0}
+		}
 		run := runEngineSchedule(sc.Requests, sc.Funding, sc.Metadata, p)
 		if sc.Twin { // the same history without its previews (C14)
 			run["twin"] = runEngineSchedule(real, sc.Funding, sc.Metadata, p)
@@ -983,6 +1003,7 @@ func genEngine(r *rng, n int, tier string, emit func(J)) {
 		var reqs []J
 		twin := false
 		dfs := 0
+		restartAfter := -1
 		switch c % 8 {
 		case 0: // racing debits of one account, named in different ways
 			funding[0][2] = "100"
@@ -1053,6 +1074,19 @@ func genEngine(r *rng, n int, tier string, emit func(J)) {
 				q["phase"], q["dry"] = i, g.p(45)
 				reqs = append(reqs, q)
 			}
+		case 5: // a ledger that starts empty: metadata writes first, a restart, then more writes
+			funding = [][]string{}
+			k := 1 + g.n(3)
+			for i := 0; i < k; i++ {
+				reqs = append(reqs, J{"kind": "setmeta", "phase": i, "dry": false, "ik": "", "ref": "", "acct": g.pick(accts), "key": "k1", "val": fmt.Sprintf("v%d", i)})
+			}
+			if g.p(50) {
+				reqs = append(reqs, J{"kind": "delmeta", "phase": k, "dry": false, "ik": "", "ref": "", "acct": "alice", "key": "k1"})
+				k++
+			}
+			reqs = append(reqs, create(g, k, "world", "alice", 50))
+			reqs = append(reqs, J{"kind": "setmeta", "phase": k + 1, "dry": false, "ik": "", "ref": "", "acct": "bob", "key": "k2", "val": "w"})
+			restartAfter = g.n(k + 1)
 		default: // a random mix
 			nReq := 2 + g.n(3)
 			if tier == "thorough" {
@@ -1109,6 +1143,18 @@ func genEngine(r *rng, n int, tier string, emit func(J)) {
 			}
 		}
 		plans := mkPlans(g, len(reqs), !twin)
+		if restartAfter >= 0 {
+			for _, pl := range plans {
+				pl["crash"], pl["fail"] = -1, -1
+				pl["has_crash_after"], pl["crash_after_phase"] = true, restartAfter
+			}
+		} else if c%8 >= 6 && g.p(50) { // a restart between two phases of a random mix
+			for k, pl := range plans {
+				if k%2 == 1 && pl["crash"] == -1 && pl["fail"] == -1 {
+					pl["has_crash_after"], pl["crash_after_phase"] = true, 0
+				}
+			}
+		}
 		if dfs > 0 {
 			plans = append(plans, J{"seed": 0, "crash": -1, "fail": -1, "plan": []int{}, "coarse": true, "dfs": dfs})
 		}
